@@ -253,3 +253,52 @@ extern "C" void h_ovl() {
     vf_witness();
 }
 #endif
+
+
+#if C19_PART == 3
+// ================================================================= stack_storage: two activations prepared before either coroutine exists
+// The documented usage is: construct the storage from the shared state, alloca(size_t(storage)) bytes, create the coroutine. When two
+// activations overlap, both have asked for their memory before the first heap fallback teaches the shared state the real frame size.
+// Whatever the state learns later, a frame may use the caller's block only if it fits the size THAT storage asked for.
+alignas(16) char g_buf2[256];
+extern "C" void h_stack2() {
+    const int warm = vf_choice(3);          // 0 cold start, 1 state learned the small frame, 2 state learned the large frame
+    const int sza = vf_choice(2), szb = vf_choice(2);
+    vf_warmup();
+    const long base = vf_live_allocs();
+    {
+        std::size_t state = 0;
+        Slot w, a, b;
+        w.seed = 1; a.seed = nondet_int(); b.seed = nondet_int(); a.size = sza; b.size = szb;
+        if (warm) {
+            w.size = warm - 1; w.open = w.gate.get_promise(); w.open();
+            S st(state); st = static_cast<void *>(g_buf);
+            Co co = make(st, w);
+            w.res << [&] { return co.start(); };
+            VF_ASSERT(w.res.ready(), "VF_SPEC warm-up frame ran to completion");
+        }
+        a.open = a.gate.get_promise(); b.open = b.gate.get_promise();
+        S sa(state); const std::size_t asked_a = std::size_t(sa); VF_ASSERT(asked_a <= sizeof(g_buf), "VF_SPEC buffer"); sa = static_cast<void *>(g_buf);
+        S sb(state); const std::size_t asked_b = std::size_t(sb); VF_ASSERT(asked_b <= sizeof(g_buf2), "VF_SPEC buffer"); sb = static_cast<void *>(g_buf2);
+        {
+            Co ca = make(sa, a);
+            if (g_last_p == static_cast<void *>(g_buf))
+                VF_ASSERT(g_last_sz + 1 <= asked_a, "C19 stack_storage places a frame (and its flag byte) in the caller's memory only if it fits the size that storage asked for");
+            a.res << [&] { return ca.start(); };
+            Co cb = make(sb, b);
+            if (g_last_p == static_cast<void *>(g_buf2))
+                VF_ASSERT(g_last_sz + 1 <= asked_b, "C19 stack_storage places a frame (and its flag byte) in the caller's memory only if it fits the size that storage asked for");
+            b.res << [&] { return cb.start(); };
+        }
+        VF_ASSERT(live_blocks() == 2, "VF_SPEC both frames suspended at their gates");
+        b.open(); a.open();
+        VF_ASSERT(live_blocks() == 0, "C19 the block is released when the frame is destroyed");
+        VF_ASSERT(a.res.ready() && a.res.value() == a.seed && b.res.ready() && b.res.value() == b.seed, "VF_SPEC results delivered");
+        VF_ASSERT(a.ok == 1 && b.ok == 1, "C19 the frame's locals survive its suspension unmodified (canary)");
+        vf_out(asked_a > 0); vf_out(asked_b > 0);          // (frame sizes differ between compilers: only compiler-independent observations)
+    }
+    VF_ASSERT(vf_live_allocs() == base, "C19 all heap memory of the policy (blocks, fallbacks) is released, none twice");
+    vf_choice_end();
+    vf_witness();
+}
+#endif
